@@ -1436,6 +1436,7 @@ class C12CancelForce(Oracle):
     def __init__(self, world, plan, res):
         super().__init__(world, plan, res)
         self.pending: list[dict] = []
+        self.injected_watch: list[dict] = []
         try:
             self.watch_nodes = [n for n in model.parse(plan["method"]).walk() if n.kind == "Watch"] \
                 if plan.get("cfg", {}).get("wellformed") else []
@@ -1468,6 +1469,18 @@ class C12CancelForce(Oracle):
                        f"{what} of {item.name if item else target_id!r} (not offered) accepted={ok} changed engine state")
             self.res.probe("not_offered_checked")
             return
+        if ok and base == "Watch":
+            # the Watch of an injected snippet (registered exactly once): after an accepted cancel its body never runs,
+            # after an accepted force it runs although its condition is false
+            for op in self.plan["ops"]:
+                if op[0] == "inject" and item.name.strip() in [ln.strip() for ln in str(op[1]).split("\n")]:
+                    lines = str(op[1]).split("\n")
+                    k = [ln.strip() for ln in lines].index(item.name.strip())
+                    body = [ln.strip()[6:] for ln in lines[k + 1:] if ln.startswith("    Mark: ")]
+                    if body:
+                        self.injected_watch.append({"what": what, "tick": w.tick_no, "name": item.name, "marks": body,
+                                                    "n_effects": len(w.effects)})
+                    break
         if ok:
             self.pending.append({"what": what, "base": base, "name": item.name, "tick": w.tick_no, "id": target_id,
                                  "state_at": w.state, "flags_at": w.control(),
@@ -1475,6 +1488,15 @@ class C12CancelForce(Oracle):
             self.res.probe(f"{what}_{base}")
 
     def after_tick(self, w, inc):
+        for q in list(self.injected_watch):
+            seen = [e for e in w.effects[q["n_effects"]:] if e[1] == "mark" and e[2] in q["marks"]]
+            if q["what"] == "cancel" and seen:
+                self.injected_watch.remove(q)
+                self.v("C12", "C12.cancelled_watch_body_ran", "injected Watch",
+                       f"cancel of the injected {q['name']!r} accepted in tick {q['tick']}, its body ran afterwards: {seen[:2]}")
+            elif q["what"] == "force" and seen:
+                self.injected_watch.remove(q)
+                self.res.probe("forced_injected_watch_started")
         for p in list(self.pending):
             age = w.tick_no - p["tick"]
             if p["what"] == "cancel":
